@@ -164,7 +164,7 @@ def lean_obligations(rep):
         src = open(os.path.join(LEAN, m.replace('.', '/') + '.lean')).read()
         src = re.sub(r'/-.*?-/', '', src, flags=re.S)
         src = re.sub(r'--.*', '', src)
-        bad = re.findall(r'\b(sorry|admit|native_decide|bv_decide|implemented_by|unsafe)\b|^axiom\s|maxHeartbeats\s+0\b', src, flags=re.M)
+        bad = re.findall(r'(?<![.\w])(sorry|admit|native_decide|bv_decide|implemented_by|unsafe)\b(?!\s*[:_])|^axiom\s|maxHeartbeats\s+0\b', src, flags=re.M)
         if bad:
             rep.broken.append(('axiom', m, f'forbidden construct in source: {bad[:3]}'))
     return driver_ok
